@@ -477,7 +477,7 @@ def load_known_findings():
         return json.load(f)
 
 def write_replay(prop, rec):
-    d = os.path.join(VERIF_DIR, 'replays', prop)
+    d = os.path.join(os.environ.get('VERIF_REPLAY_DIR') or os.path.join(VERIF_DIR, 'replays'), prop)
     os.makedirs(d, exist_ok=True)
     body = json.dumps(rec, sort_keys=True, indent=1)
     name = hashlib.sha256(body.encode()).hexdigest()[:12] + '.json'
@@ -487,7 +487,7 @@ def write_replay(prop, rec):
     return p
 
 def write_evidence(prop, tier, seed, coverage, wall_s, violations, assumptions):
-    d = os.path.join(VERIF_DIR, 'evidence')
+    d = os.environ.get('VERIF_EVIDENCE_DIR') or os.path.join(VERIF_DIR, 'evidence')
     os.makedirs(d, exist_ok=True)
     ev = {'property_id': prop, 'tier': tier, 'seed': seed, 'level': 'exploration',
           'coverage': coverage, 'assumptions': assumptions,
